@@ -24,7 +24,7 @@ pub struct Case {
 
 /// What the known map-key defect does: keys that are `==` collapse, the first key stays, the
 /// last value wins (BTreeMap::insert).
-fn collapse_model(v: &Value) -> Value {
+pub fn collapse_model(v: &Value) -> Value {
     match v {
         Value::Tuple(e) => Value::Tuple(e.iter().map(collapse_model).collect()),
         Value::List { elems, tail } => Value::List {
@@ -184,7 +184,7 @@ pub fn oracle(case: &Case) -> Verdict {
     Verdict::Pass(info)
 }
 
-fn strategy(cfg: GenCfg) -> impl Strategy<Value = Case> {
+pub fn strategy(cfg: GenCfg) -> impl Strategy<Value = Case> {
     (
         arb_value(cfg),
         arb_choices(40),
@@ -230,6 +230,112 @@ pub fn run(run: &mut Run) {
         run.tier.pick(5_000, 200_000),
         oracle,
     );
+    // a valid term decodes to its value whatever the same thread was made to decode (and reject) before
+    run.prop("valid-after-rejected", after_strategy, run.tier.pick(3_000, 100_000), after_oracle);
+}
+
+
+// ---- decoding does not depend on what the thread decoded before ------------------------------------------------
+
+#[derive(Clone, Debug, Serialize, Deserialize)]
+pub enum Junk {
+    /// a valid encoding cut after `cut` bytes (every cut position, including the ones where the next term would start)
+    Truncated { value: Value, cut: u16 },
+    /// `k` levels of container nesting (the decoders refuse more than 256)
+    Deep { kind: u8, k: u16 },
+    Raw(Vec<u8>),
+}
+
+#[derive(Clone, Debug, Serialize, Deserialize)]
+pub struct AfterCase {
+    /// inputs decoded first (each `repeat` times) on the same thread, through both decoders
+    pub before: Vec<(Junk, u8)>,
+    /// then a valid term nested `depth` levels (<= 250) in containers of kind `kind`
+    pub depth: u8,
+    pub kind: u8,
+    pub leaf: Value,
+}
+
+fn junk_bytes(j: &Junk) -> Vec<u8> {
+    match j {
+        Junk::Truncated { value, cut } => {
+            let b = refmodel::etf::refenc_canonical(value);
+            let n = (*cut as usize * (b.len() + 1)) >> 16;
+            b[..n.min(b.len())].to_vec()
+        }
+        Junk::Deep { kind, k } => crate::props::c02::bytes_of(&crate::props::c02::Case::Depth { kind: *kind, k: *k as u32 }).0,
+        Junk::Raw(b) => b.clone(),
+    }
+}
+
+fn nested(kind: u8, depth: usize, leaf: &Value) -> Value {
+    let mut v = leaf.clone();
+    for i in 0..depth {
+        v = match kind % 4 {
+            0 => Value::Tuple(vec![v]),
+            1 => Value::list(vec![v]),
+            2 => Value::Map(vec![(Value::int(i as i128), v)]),
+            _ => Value::Tuple(vec![Value::int(1), Value::list(vec![Value::atom("x"), v])]),
+        };
+    }
+    v
+}
+
+pub fn after_oracle(case: &AfterCase) -> Verdict {
+    let mut rejected = 0usize;
+    for (j, rep) in &case.before {
+        let b = junk_bytes(j);
+        for _ in 0..(*rep).max(1) {
+            rejected += erltf::decode(&b).is_err() as usize;
+            let _ = erltf::decode_borrowed(&b);
+        }
+    }
+    // kind 3 nests two levels per step
+    let depth = if case.kind % 4 == 3 { (case.depth as usize).min(250) / 2 } else { (case.depth as usize).min(250) };
+    let v = nested(case.kind, depth, &case.leaf);
+    let bytes = refmodel::etf::refenc_canonical(&v);
+    let here = (erltf::decode(&bytes).map(|t| denote(&t)), erltf::decode_borrowed(&bytes).map(|t| denote(&t.to_owned())).map_err(|e| e.error));
+    let b2 = bytes.clone();
+    let fresh = std::thread::Builder::new()
+        .stack_size(16 << 20)
+        .spawn(move || erltf::decode(&b2).map(|t| denote(&t)))
+        .expect("spawn")
+        .join()
+        .unwrap_or_else(|_| Err(erltf::DecodeError::InvalidFormat("panicked".into())));
+    for (name, r) in [("decode", &here.0), ("decode_borrowed", &here.1)] {
+        match (r, &fresh) {
+            (Ok(a), _) if a.same(&v) => {}
+            (Ok(a), _) => vfail!("decoded-value-differs", "{name} of a {depth}-level nested term gave {}", crate::engine::truncate(&a.render(), 300)),
+            (Err(e), Ok(_)) => vfail!(
+                "decode-result-depends-on-earlier-decodes",
+                "{name} rejected ({e:?}) a valid term nested {depth} levels after {rejected} earlier rejected inputs on the same thread; a fresh thread decodes it"
+            ),
+            (Err(e), Err(_)) => vfail!("valid-encoding-rejected", "{name} (and a fresh thread) rejected a valid term nested {depth} levels: {e:?}"),
+        }
+    }
+    let info = if rejected > 0 && depth >= 8 { CaseInfo::nt(fp(&format!("{:?}", case))) } else { CaseInfo::trivial() };
+    Verdict::Pass(info.class_if(rejected > 0, "after-rejections").class_if(depth >= 200, "nesting>=200"))
+}
+
+pub fn after_strategy() -> impl Strategy<Value = AfterCase> {
+    let small = GenCfg { depth: 3, size: 12, heavy: false, ..GenCfg::std() };
+    let junk = prop_oneof![
+        4 => (arb_value(small), any::<u16>()).prop_map(|(value, cut)| Junk::Truncated { value, cut }),
+        3 => (0u8..9, prop_oneof![Just(257u16), Just(300), 250u16..400, Just(2000)]).prop_map(|(kind, k)| Junk::Deep { kind, k }),
+        1 => prop::collection::vec(any::<u8>(), 0..12).prop_map(|mut b| {
+            if !b.is_empty() {
+                b[0] = 131;
+            }
+            Junk::Raw(b)
+        }),
+    ];
+    (
+        prop::collection::vec((junk, prop_oneof![Just(1u8), Just(3), Just(40), Just(150)]), 0..6),
+        prop_oneof![Just(250u8), Just(249), Just(128), 0u8..=250],
+        0u8..4,
+        arb_value(GenCfg { depth: 1, size: 3, heavy: false, ..GenCfg::std() }),
+    )
+        .prop_map(|(before, depth, kind, leaf)| AfterCase { before, depth, kind, leaf })
 }
 
 pub fn replays() -> Vec<ReplayEntry> {
@@ -237,5 +343,6 @@ pub fn replays() -> Vec<ReplayEntry> {
         replay_entry("scalars-all-forms", oracle),
         replay_entry("trees-all-forms", oracle),
         replay_entry("trees-eq-num-keys", oracle),
+        replay_entry("valid-after-rejected", after_oracle),
     ]
 }
